@@ -90,6 +90,17 @@ class Linear(Transform):
             self.cache.invalidate()
         return super().train(mode)
 
+    def _load_from_state_dict(self, *args, **kwargs):
+        # New parameter values make any cached weight/inverse/logabsdet stale.
+        self.cache.invalidate()
+        return super()._load_from_state_dict(*args, **kwargs)
+
+    def _apply(self, fn, *args, **kwargs):
+        # Moving/casting the parameters (.to(), .double(), .cuda(), ...) doesn't touch the
+        # cached tensors, so they have to be recomputed.
+        self.cache.invalidate()
+        return super()._apply(fn, *args, **kwargs)
+
     def use_cache(self, mode=True):
         if not check.is_bool(mode):
             raise TypeError("Mode must be boolean.")
